@@ -40,6 +40,11 @@ def analyse(prog: Program, prop: str, tier: str) -> Ctx:
         from .rules import c03, c15
 
         c03._guarded(ctx, "R15.7", c15.check_globals)
+    if not any(r.startswith("R15.11") for r in ctx.instances):
+        # ... and the function / alias tables the rules read off the source bind what they appear to bind
+        from .rules import c03, c15
+
+        c03._guarded(ctx, "R15.11", c15.check_late_binding)
     return ctx
 
 
